@@ -1291,7 +1291,11 @@ func c19Exec(r *sim.Run, sci interface{}) {
 			// the second syncer's interval is 1.337us longer: two tickers armed in
 			// the same instant (both watch creations answered by one delivery) would
 			// otherwise tie on every tick
-			sy, err := cl.Syncer(time.Duration(s.cfg.PullMs)*time.Millisecond + time.Duration(s.idx)*1337*time.Nanosecond)
+			// (and every interval is 1.013us longer than a round number: the
+			// scheduler's stalls last 1us..60s, all multiples of no such interval, so
+			// a stall that begins in a tick instant does not end in one - there the
+			// tick would race with the release of the parked tasks)
+			sy, err := cl.Syncer(time.Duration(s.cfg.PullMs)*time.Millisecond + 1013*time.Nanosecond + time.Duration(s.idx)*1337*time.Nanosecond)
 			if err != nil {
 				r.Violate("C19.harness", "Syncer: %v", err)
 				return
